@@ -222,7 +222,7 @@ fn c11_pairs_stream_roundtrip() {
     cs.compress_surprising_values(&p[..n], 4);
     assert!(cs.table_num_entries as usize == n);
     assert!(cs.table_data_words <= cs.table_data.len());
-    let back = uncompress_surprising_values(&cs.table_data, cs.table_data_words, n as u32, 4);
+    let back = crate::verif_kani_common::expect_ok(uncompress_surprising_values(&cs.table_data, cs.table_data_words, n as u32, 4), "a compressed pair stream was rejected");
     assert!(back.len() == n);
     let mut i = 0;
     while i < n {
